@@ -848,6 +848,11 @@ def gen_views(repo):
             j = match_close(cls, m.end() - 1, '(', ')'); a = split_top(cls[m.end():j])
             if len(a) != 2: continue                       # the member initialiser _expr(_ex)
             sites.append((m.start(), '(2%%nat, %s, %s, %s)' % ('true' if enclosing_step1(cls, m.start()) else 'false', tr(a[0]), tr(a[1]))))
+        # every vector store of the class goes through one of the translated addresses
+        for m in re.finditer(r'\.store\s*\(', cls):
+            if not re.match(r'\s*&_data\s*\[', cls[m.end():]): raise XErr('a vector store through something else than &_data[..]: ' + cls[m.end():m.end() + 40].strip())
+        for m in re.finditer(r'(?<![\w.&])(\w+)\s*\[[^\]]*\]\s*(?:[-+*/]?=)(?!=)', cls):
+            if m.group(1) not in ('inds',): raise XErr('an indexed store through %s[..]' % m.group(1))
         if len(sites) < 40: raise XErr('only %d access sites found in the non-const 2-D view class' % len(sites))
         return '[' + (';' + NL).join(t for _, t in sorted(sites)) + ']'
     G.define('gen_view2d_write_sites', '(f0 s0 f1 s1 N i j : Z)', 'list (nat * bool * Z * Z)', write_sites,
